@@ -78,7 +78,14 @@ func (runInfo *runInfoStruct) invokeLetMemberExpr(expr *ast.MemberExpr) {
 			runInfo.rv = nilValue
 			return
 		}
-		runInfo.rv = runInfo.rv.FieldByIndex(field.Index)
+		var fieldErr error
+		runInfo.rv, fieldErr = runInfo.rv.FieldByIndexErr(field.Index)
+		if fieldErr != nil {
+			// promoted through a nil embedded pointer
+			runInfo.err = newStringError(expr, "struct member '"+expr.Name+"' cannot be assigned")
+			runInfo.rv = nilValue
+			return
+		}
 		// From reflect CanSet:
 		// A Value can be changed only if it is addressable and was not obtained by the use of unexported struct fields.
 		// Often a struct has to be passed as a pointer to be set
